@@ -157,13 +157,13 @@ def build_outcome(f):
                 "SRConflicts": "SRConflicts", "RRConflicts": "RRConflicts"}.get(k, "exc:" + k), None
 
 
-def lr_parse(world, p, w, raise_at):
+def lr_parse(world, p, w, raise_at, limit=None):
     import parglare
     from lib import impl
     world.ctl["n"] = 0
     world.ctl["raise_at"] = raise_at
     try:
-        with impl.time_limit(PARSE_LIMIT):
+        with impl.time_limit(limit or PARSE_LIMIT):
             t = p.parse(w)
         r = ["ok", impl.node_sx(t, world.gi),
              [[e.location.start_position, e.location.end_position] for e in p.errors]]
@@ -180,13 +180,13 @@ def lr_parse(world, p, w, raise_at):
     return r, [1 if f in p.__dict__ else 0 for f in LR_FIELDS]
 
 
-def glr_parse(world, p, w, traise_at):
+def glr_parse(world, p, w, traise_at, limit=None):
     import parglare
     from lib import impl
     world.ctl["tn"] = 0
     world.ctl["traise_at"] = traise_at
     try:
-        with impl.time_limit(PARSE_LIMIT):
+        with impl.time_limit(limit or PARSE_LIMIT):
             f = p.parse(w)
         trees = []
         try:
@@ -381,15 +381,21 @@ def _worker(job):
     for w in probes["inputs"]:
         if P is not None and PF is not None and "lr" not in dead:
             r, fields = lr_parse(W, P, w, None)
+            rf, _ = lr_parse(F, PF, w, None)
+            if (r[0] == "exc:Timeout") != (rf[0] == "exc:Timeout"):     # slow, not looping? retry both
+                r, fields = lr_parse(W, P, w, None, limit=20)
+                rf, _ = lr_parse(F, PF, w, None, limit=20)
             if r[0] == "exc:Timeout":
                 dead.add("lr")
-            rf, _ = lr_parse(F, PF, w, None)
             lr_seq.append({"w": w, "raise_at": None, "res": r, "fields": fields, "rx": rx(w), "fresh": rf})
         if Q is not None and QF is not None and "glr" not in dead:
             r, fields = glr_parse(W, Q, w, None)
+            rf, _ = glr_parse(F, QF, w, None)
+            if (r[0] == "exc:Timeout") != (rf[0] == "exc:Timeout"):
+                r, fields = glr_parse(W, Q, w, None, limit=20)
+                rf, _ = glr_parse(F, QF, w, None, limit=20)
             if r[0] == "exc:Timeout":
                 dead.add("glr")
-            rf, _ = glr_parse(F, QF, w, None)
             glr_seq.append({"w": w, "raise_at": None, "res": r, "fields": fields, "fresh": rf})
     for b in probes["builds"]:
         kind, p = do_build(W, b)
@@ -401,9 +407,15 @@ def _worker(job):
                 if b[0]:
                     r, _ = glr_parse(W, p, w, None)
                     rf, _ = glr_parse(F, pf, w, None)
+                    if (r[0] == "exc:Timeout") != (rf[0] == "exc:Timeout"):
+                        r, _ = glr_parse(W, p, w, None, limit=20)
+                        rf, _ = glr_parse(F, pf, w, None, limit=20)
                 else:
                     r, _ = lr_parse(W, p, w, None)
                     rf, _ = lr_parse(F, pf, w, None)
+                    if (r[0] == "exc:Timeout") != (rf[0] == "exc:Timeout"):
+                        r, _ = lr_parse(W, p, w, None, limit=20)
+                        rf, _ = lr_parse(F, pf, w, None, limit=20)
                 e["parses"].append([w, r, rf])
         pr["builds"].append(e)
     # the grammar text still loads to the same Grammar after everything (module-level parser)
@@ -458,7 +470,7 @@ def gen_jobs(ctx):
     for name, text in CURATED:
         for li in range(len(LAYOUTS)):
             specs.append((name + "+L%d" % li, text, LAYOUTS[li], gramgen.parse_text_prods(text)))
-    nrand = 80 if quick else 1200
+    nrand = 80 if quick else 3000
     for i in range(nrand):
         big = i % 3 == 0
         r = gramgen.random_grammar(rng, max_nt=4 if big else 3, max_alts=3, max_rhs=3,
